@@ -112,6 +112,35 @@ def ob_run2d_intstring(nd):
     return Obligation('specobjid run2d integer string digits=%d' % nd, fn, bounds='every %d-digit string' % nd, solver_timeout_ms=120000)
 
 
+def ob_run2d_array(lenM):
+    """run2d given as an ARRAY of 'vN_M_P' strings (what unwrap_specobjid returns) next to array plate / fibre / MJD"""
+    def fn(ctx):
+        from pydl.pydlutils.sdss import sdss_specobjid
+        dN, dM, dP = _digits(ctx, 'N', 1), _digits(ctx, 'M', lenM), _digits(ctx, 'P', 1)
+        dN, dM, dP = ([chr(int(ctx.concretize(t))) for t in ds] for ds in (dN, dM, dP))
+        run2d = S('v', dN, '_', dM, '_', dP)
+        d = {'fn': 'run2d_array', 'lenM': lenM}
+        ctx.detail = d
+        plate, fiber, mjd = (symnp._build_object([BV(v, 'i8')]) for v in (4055, 408, 55359))
+        r = (int(''.join(dN)) - 5) * 10000 + int(''.join(dM)) * 100 + int(''.join(dP))
+        arr = np.array([run2d]) if isinstance(run2d, str) else symnp._build_object([run2d])
+        try:
+            out = sdss_specobjid(plate, fiber, mjd, arr)
+            raised = None
+        except ValueError:
+            raised = 'ValueError'
+        if raised:
+            ctx.require(not 0 <= r < 2 ** 14, 'specobjid(array of vN_M_P): ValueError only for an out-of-range run2d', dict(d, r=r))
+            return
+        ctx.require(0 <= r < 2 ** 14, 'specobjid(array of vN_M_P): out-of-range run2d must be rejected', dict(d, r=r))
+        o = out[0]
+        ot = o.term if isinstance(o, BV) else z3.BitVecVal(int(o), 64)
+        exp = (4055 << 50) | (408 << 38) | (5359 << 24) | (r << 10)
+        ctx.require(z3.simplify(ot == z3.BitVecVal(exp, 64)), 'specobjid(array of vN_M_P) == specobjid(scalar string) element by element', dict(d, r=r))
+        ctx.require(z3.BoolVal(True) == (plate[0].term == plate[0].term), 'symbolic touch')
+    return Obligation('specobjid run2d array of strings lenM=%d' % lenM, fn, bounds='every digit choice', expect_symbolic=False, solver_timeout_ms=60000)
+
+
 def ob_decimal_ids(kind, nd):
     def fn(ctx):
         from pydl.pydlutils.sdss import unwrap_specobjid
@@ -139,7 +168,7 @@ def ob_decimal_ids(kind, nd):
 
 def obligations(tier, seed):
     q = tier == 'quick'
-    obs = [ob_run2d_v(1, 1, 1, None, fixed=(1 if q else 0)), ob_run2d_intstring(3), ob_run2d_intstring(5),
+    obs = [ob_run2d_v(1, 1, 1, None, fixed=(1 if q else 0)), ob_run2d_array(1), ob_run2d_intstring(3), ob_run2d_intstring(5),
            ob_decimal_ids('spec', 19), ob_decimal_ids('obj', 19)]
     if not q:
         # fixed=2: every spelling of the digits is enumerated by the solver, plate / fibre / MJD / line stay symbolic 64-bit values
@@ -181,6 +210,16 @@ def replay(rec):
             return True
         un = unwrap_specobjid(out, specLineIndex=(d['low'] == 'index'))
         return un.run2d[0] != 'v%d_%d_%d' % (int(N), int(M), int(P)) or int(un.plate[0]) != plate
+    if fn == 'run2d_array':
+        s_ = 'v%s_%s_%s' % (digs('N', 1), digs('M', d['lenM']), digs('P', 1))
+        r = (int(digs('N', 1)) - 5) * 10000 + int(digs('M', d['lenM'])) * 100 + int(digs('P', 1))
+        try:
+            out = sdss_specobjid(np.array([4055]), np.array([408]), np.array([55359]), np.array([s_]))
+        except ValueError:
+            return 0 <= r < 2 ** 14
+        if not 0 <= r < 2 ** 14:
+            return True
+        return int(out[0]) != ((4055 << 50) | (408 << 38) | (5359 << 24) | (r << 10))
     if fn == 'run2d_int':
         s = digs('r', d['nd'])
         r = int(s)
